@@ -4,12 +4,15 @@ import (
 	"encoding/json"
 	"fmt"
 	"os"
+	"regexp"
 	"path/filepath"
 	"strings"
 	"time"
 
 	"github.com/huderlem/poryscript/parser"
 )
+
+var reFmtCode = regexp.MustCompile(`{[^}]*}`)
 
 func init() {
 	register("C07", "model_checking", checkC07)
@@ -196,6 +199,23 @@ func checkC07(c *Ctx) {
 					n++
 					if n == 77 || n == 9000 {
 						c.Sample(map[string]interface{}{"call": describe[id]})
+					}
+					if n%5 == 0 {
+						// the built-in measuring font "TEST": every character 10 px, every {code} 100 px
+						tm := make([]map[string]interface{}, len(model))
+						for k, m := range model {
+							tm[k] = map[string]interface{}{"k": m["k"], "w": m["w"], "c": m["c"]}
+							if m["k"] == "w" {
+								codes := reFmtCode.FindAllString(words[k], -1)
+								rest := reFmtCode.ReplaceAllString(words[k], "")
+								tm[k]["w"] = 100*len(codes) + 10*len([]rune(rest))
+							}
+						}
+						tout, terr := safeFormat(&fc, text, max*10, ov*10, "TEST", nl)
+						tid := "t" + id
+						describe[tid] = fmt.Sprintf("FormatText(%q, max=%d, overlap=%d, font TEST, numLines=%d) = %q err=%v", text, max*10, ov*10, nl, tout, terr)
+						recs = append(recs, map[string]interface{}{"id": tid, "P": map[string]int{"max": max * 10, "ov": ov * 10, "nl": nl, "sp": 10},
+							"T": tm, "lines": fmtParse(tout, words), "err": terr != nil})
 					}
 				}
 			}
